@@ -143,6 +143,12 @@ def run(ctx):
         for case in X.exhaustive_cases():
             if len(case["entries"]) <= 1 or ctx.scale > 1 or ctx.rng.random() < 0.25:
                 check_case(ctx, ld, case, reqs, pend)
+        # the widest coordinate sits in a later axis of a key that is not the greatest one (every word-size boundary)
+        for big in (255, 256, 65535, 65536, 2**32 - 1, 2**32):
+            for arity in (2, 3):
+                lo, hi = [0] * (arity - 1) + [big], [1] + [2] * (arity - 1)
+                for ents in ([[lo, [0, 3]], [hi, [1]]], [[hi, [1]], [lo, [0, 3]]]):
+                    check_case(ctx, ld, {"entries": ents, "common": 0, "arity": arity}, reqs, pend)
         # the file handle the caller passes: write-only, append (new file), append+read, update, unbuffered
         for hd in ("wb", "ab", "a+b", "r+b", "unbuffered"):
             check_case(ctx, ld, {"entries": [[[1], [0, 2, 5]], [[300], [1, 4, X.U32]]], "common": 0, "arity": 1, "handle": hd}, reqs, pend)
